@@ -409,6 +409,8 @@ Record hcase := {
   hc_stop : bool;                    (* package entries: the installer gives up at the first error *)
   hc_ops : list dop;
   hc_answers : option (list bool);   (* direct operations: err == nil of each *)
+  hc_view : option tnode;            (* the fresh DirFS's own picture of the root before the operations: ReadDir
+                                        (entry types from the overlay) and Readlink, recursively *)
   hc_changed : list string           (* the snapshot diff: every place that changed *)
 }.
 
@@ -457,6 +459,20 @@ Definition mech (b : str) (o : hop) : string :=
   else if tree_first_h o then "viol:overlay-resolves-links-unlike-kernel"
   else "viol:dirfs-follows-host-symlink".
 
+Fixpoint node_eqb (a b : node) {struct a} : bool :=
+  match a, b with
+  | NFile, NFile => true
+  | NLink x, NLink y => str_eqb x y
+  | NDir ca, NDir cb =>
+      (fix go (la0 lb0 : list (str * node)) {struct la0} : bool :=
+         match la0, lb0 with
+         | [], [] => true
+         | ka :: ra, kb :: rb => str_eqb (fst ka) (fst kb) && node_eqb (snd ka) (snd kb) && go ra rb
+         | _, _ => false
+         end) ca cb
+  | _, _ => false
+  end.
+
 Definition bool_list_eqb (a b : list bool) : bool :=
   Nat.eqb (List.length a) (List.length b) && forallb (fun p => Bool.eqb (fst p) (snd p)) (combine a b).
 
@@ -476,6 +492,10 @@ Definition check_host (c : hcase) : list string :=
   let pred_out := filter (fun oq => outside roots (pos_str (snd oq))) touched in
   let obs := map (fun x => clean (la x)) (hc_changed c) in
   let obs_out := escapes roots obs in
+  (* a root that already had content: the overlay built by DirFS's walk must be its lstat image *)
+  tag_if (match hc_view c with
+          | Some v => negb (node_eqb (to_node v) (x_ov s0))
+          | None => false end) "mismatch:overlay-mirror-differs" ++
   tag_if (match hc_answers c with
           | Some l => negb (bool_list_eqb l (map (fun r => snd (fst (fst r))) rows))
           | None => false end) "mismatch:dirfs-op-answer" ++
@@ -508,6 +528,7 @@ Definition check_host_sub (c : hcase) : list string :=
                    negb (String.eqb t "mismatch:host-model-inside-differs") &&
                    negb (String.eqb t "mismatch:dirfs-op-answer"))
          (check_host c).
+(* (the mirror comparison stays: mismatch:overlay-mirror-differs is not filtered) *)
 
 Inductive c18case := CPath (c : pcase) | CCanary (c : kcase) | CCache (c : ccase) | CKeyring (c : ycase) | CMember (c : mcase)
                    | CHost (c : hcase) | CHostCI (c : hcase).
